@@ -110,6 +110,23 @@ def gen(ctx):
                         cases.append(Case(tail, data=lay3, driver=driver, workers=1, bs=bs, reflink="never",
                                           plan=[fail_cfr(0, errno), ("clamp", 2, k, rd, nth, "{src}")],
                                           label="sparse, unaligned length, no kernel copy, short read"))
+    # 3c. data that happens to be ZERO (written zeros, allocated — not a hole) followed by other data, copied by the user-space
+    # loops with short reads / writes: a chunk of zeros is data like any other, every later byte lands where it belongs
+    for driver in drivers:
+        rd = "read" if driver == "parfile" else "pread64"
+        wr = "write" if driver == "parfile" else "pwrite64"
+        for (size, zeros) in [(256 * 1024, [(0, 64 * 1024)]), (300000, [(65536, 131072), (200000, 204096)])]:
+            for bs in ((65536,) if quick else (65536, 4096, "noprogress")):
+                for k in (4096, 1000):
+                    for which in (rd, wr):
+                        c = Case(size, driver=driver, workers=1, bs=bs, reflink="never",
+                                 plan=[fail_cfr(0, E["ENOSYS"]), ("clamp", 2, k, which, 0, "{src}" if which == rd else "{dst}")],
+                                 label="written zeros then data, no kernel copy, every %s short" % which)
+                        c.zeros = zeros
+                        cases.append(c)
+                c = Case(size, driver=driver, workers=2, bs=bs, reflink="never", plan=[fail_cfr(0, E["EXDEV"])], label="written zeros then data, no kernel copy")
+                c.zeros = zeros
+                cases.append(c)
     # 4. the build without the Linux backend (libfs/src/fallback.rs)
     for driver in drivers:
         for (size, bs) in [(0, B), (1, B), (10000, 4096), (10000, "noprogress"), (300, 7)]:
@@ -157,6 +174,6 @@ def run(ctx, out):
     out.rule = ("single files under an oracle plan applied by the ptrace supervisor: the n-th copy_file_range (or read/pread/"
                 "write/pwrite of the user-space loops) clamped to k bytes, copy_file_range failed with ENOSYS/EXDEV/EPERM at "
                 "the first/second/every call, FICLONE with EOPNOTSUPP/EINVAL/EXDEV, FIEMAP with EOPNOTSUPP, read/write with "
-                "EINTR, sparse sources of unaligned length with no kernel copy and a short read / write in each range, plus the binary built without the Linux backend; non-trivial = an injection fired (or fallback "
+                "EINTR, written-zero chunks followed by data under short reads / writes, sparse sources of unaligned length with no kernel copy and a short read / write in each range, plus the binary built without the Linux backend; non-trivial = an injection fired (or fallback "
                 "backend); distinct = distinct (case, plan)")
     datapath.run_cases(ctx, out, gen(ctx), "C05", c01.oracle, nontrivial)
